@@ -88,6 +88,9 @@ pub mod tempfile {
 
         pub uninterp spec fn ino(&self) -> InodeId;
 
+        /// Position of the underlying descriptor.
+        pub uninterp spec fn offset(&self) -> nat;
+
         /// mkstemp in `dir` (narrowed to the one argument type the crate uses).  PROTOCOL (C02): temporary files
         /// are only ever created inside the `.kismet_temp` subdirectory of a configured cache directory.
         #[verifier::external_body]
@@ -103,6 +106,7 @@ pub mod tempfile {
                 match r {
                     Ok(t) => {
                         &&& final(w).hard_faults == old(w).hard_faults
+                        &&& t.offset() == 0
                         &&& t.pathv().len() > 0 && parent(t.pathv()) == cowv(dir) && single_component(base_name(t.pathv()))
                         &&& !old(w).files.contains_key(t.pathv()) && !old(w).inodes.contains_key(t.ino())
                         &&& final(w).files == old(w).files.insert(t.pathv(), t.ino())
@@ -132,6 +136,7 @@ pub mod tempfile {
             ensures
                 r.ino() == old(self).ino(),
                 r.can_write(),
+                r.offset() == old(self).offset(),
                 final(self).ino() == old(self).ino(),
                 final(self).pathv() == old(self).pathv(),
         {
@@ -154,7 +159,7 @@ pub mod tempfile {
         &&& fin.inv()
         &&& fin.kept(old) && fin.steps == old.steps + 1 && fin.opens == old.opens + 1
         &&& fin.now == old.now && fin.listed == old.listed && fin.published == old.published && fin.supplied == old.supplied && fin.owned == old.owned
-        &&& fin.app_errors == old.app_errors
+        &&& fin.app_errors == old.app_errors && fin.app_not_found == old.app_not_found
         &&& fin.dirs == old.dirs && fin.files == old.files
         &&& match r {
             Ok(f) => {
@@ -167,6 +172,25 @@ pub mod tempfile {
                 )
             },
             Err(e) => fin.inodes == old.inodes && fin.hard_faults == old.hard_faults + 1,
+        }
+    }
+
+    /// An anonymous temporary file is bound by no name at all, so no reader can see it.
+    pub proof fn lemma_anon_invisible(old: World, fin: World, r: std::io::Result<std::fs::File>)
+        requires
+            old.env_ok(),
+            anon_created(old, fin, r),
+            r.is_ok(),
+        ensures
+            fin.invisible(r.unwrap().ino()),
+            fin.inodes.contains_key(r.unwrap().ino()),
+            fin.inodes[r.unwrap().ino()].content.len() == 0,
+            bytes_kept(old, fin),
+            forall|i: InodeId| #[trigger] old.inodes.contains_key(i) ==> fin.inodes[i] == old.inodes[i],
+    {
+        let ino = r.unwrap().ino();
+        assert forall|q: PathV| #[trigger] fin.files.contains_key(q) && fin.files[q] == ino implies false by {
+            assert(old.inodes.contains_key(old.files[q]));
         }
     }
 
@@ -232,8 +256,9 @@ pub fn call_populate<P: FnOnce(&mut std::fs::File, Option<std::fs::File>) -> ::s
             ..old(w).inodes[old(dst).ino()]
         }),
         match r {
-            Ok(()) => final(w).supplied == old(w).supplied.insert((name, final(w).inodes[old(dst).ino()].content)) && final(w).app_errors == old(w).app_errors,
-            Err(e) => final(w).supplied == old(w).supplied && final(w).app_errors == old(w).app_errors + 1,
+            Ok(()) => final(w).supplied == old(w).supplied.insert((name, final(w).inodes[old(dst).ino()].content)) && final(w).app_errors == old(w).app_errors && final(w).app_not_found == old(w).app_not_found,
+            Err(e) => final(w).supplied == old(w).supplied && final(w).app_errors == old(w).app_errors + 1 && final(w).app_not_found == old(w).app_not_found + if err_kind(e)
+                == ::std::io::ErrorKind::NotFound { 1nat } else { 0nat },
         },
 {
     unimplemented!()
